@@ -18,7 +18,7 @@ PYTHON = "/usr/bin/python3"
 WORK = os.path.join(C.WORK, "py")
 F1_SIG = "C27:F1:memo-keyed-by-address-of-temporary"
 F3_SIG = "C28:F3:python-decoder-accepts-7-byte-length-prefix"
-FRESH_WRAPPERS = {"lazynode", "lazynode_backrefs", "fresh"}
+FRESH_WRAPPERS = {"lazynode", "lazynode_backrefs", "fresh", "fresh_same", "fresh_lru2", "fresh_lru5", "fresh_held"}
 
 _wheel = {}
 
